@@ -54,7 +54,8 @@ def corr_layout(chk, r, n):
                         x = float(r.choice([1e-05, 5e-05, 1e-07, 3e-06, 1.0]))
                         Q2 = float(r.choice([1e-05, 1e+16, 2.0, 1e+22, 100.0]))
                     nf = r.choice([None, 3, 4, 5])
-                    y = float(r.uniform(0.1, 1)) if shape == "xs" else None
+                    # y = 0 is a legitimate value (2xF1 and 2xg5 do not depend on y; it is what benchmark cards use)
+                    y = (0.0 if r.random() < 0.3 else float(r.uniform(0.1, 1))) if shape == "xs" else None
                     orders = {}
                     ot = []
                     for k in keys:
@@ -66,7 +67,15 @@ def corr_layout(chk, r, n):
                 out[name] = rs
             idx = drv.add(" ".join(toks))
             tp = tmp / f"o{case}.tar"
-            out.dump_tar(tp)
+            try:
+                out.dump_tar(tp)
+                Output.load_tar(tp)
+            except Exception as e:  # noqa
+                # an output the library itself built that cannot be written or read back is a failing case
+                chk.search_case("tar_loaded_equals_dumped", False, what=f"dump_tar / load_tar of a {shape} observable: {type(e).__name__}: {e}"[:200], data=dict(shape=shape, obs=name, request=" ".join(toks)[:300]))
+                pend.append((idx, f"exception {type(e).__name__}", dict(shape=shape, obs=name, request=" ".join(toks)[:300]), shape + "/exception"))
+                tp.unlink(missing_ok=True)
+                continue
             with tarfile.open(tp) as tf:
                 tf.extractall(tmp / f"x{case}")
             inner = next((tmp / f"x{case}").glob("*"))
@@ -181,6 +190,10 @@ def search_real(chk, r, n, max_pto):
             # observables may be requested by their kind alone (flavour defaults to total); the output is
             # keyed by the name as given, and the short and the long spelling may both be present
             obs[xsk if (i == 0 or r.random() < 0.4) else f"{xsk}_total"] = [dict(x=0.1, Q2=20.0, y=0.5), dict(x=0.3, Q2=50.0, y=float(r.uniform(0.1, 1)))]
+            if i % 2 == 0:
+                # 2xF1 with y = 0 at every point / at a later point only / at the first point only
+                obs["F1_light"] = [[dict(x=0.2, Q2=20.0, y=0.0), dict(x=0.4, Q2=20.0, y=0.0)], [dict(x=0.2, Q2=20.0, y=0.7), dict(x=0.4, Q2=20.0, y=0.0)],
+                                   [dict(x=0.2, Q2=20.0, y=0.0), dict(x=0.4, Q2=20.0, y=0.3)]][(i // 2) % 3]
             if i == 0 or r.random() < 0.4:
                 k_ = r.choice(kinds)
                 obs[k_] = [dict(x=float(r.uniform(0.02, 0.9)), Q2=30.0)]
